@@ -5,10 +5,10 @@ import (
 	"fmt"
 	"time"
 
-	bitcoin_reader "github.com/tokenized/bitcoin_reader"
-	"github.com/tokenized/bitcoin_reader/headers"
 	"github.com/google/uuid"
 	"github.com/pkg/errors"
+	bitcoin_reader "github.com/tokenized/bitcoin_reader"
+	"github.com/tokenized/bitcoin_reader/headers"
 	"github.com/tokenized/pkg/bitcoin"
 	"github.com/tokenized/pkg/wire"
 
